@@ -163,3 +163,63 @@ def emission(ctx, n, nw, ng, nq):
             ctx.goal('intensity_equal[%d,%d]' % (q, v), ctx.or_(ctx.eq(Ik[q, v], Ix[q, v], scale=None if ctx.sym else 1e-30), clamped_any))
             ctx.goal('intensity_within_cutoff[%d,%d]' % (q, v), ctx.and_(ctx.le(Ix[q, v] - slack, Ik[q, v], scale=None if ctx.sym else 1e-30),
                                                                       ctx.le(Ik[q, v], Ix[q, v] + slack, scale=None if ctx.sym else 1e-30)))
+
+
+@harness('C20', 'prepare_ktables', quick=[dict(n=2, nw=1, ng=2)], thorough=[dict(n=2, nw=2, ng=2), dict(n=3, nw=1, ng=3)],
+         functions=FUNCS + ['taurex.contributions.absorption:AbsorptionContribution.prepare_each', 'taurex.contributions.absorption:AbsorptionContribution.prepare'],
+         stubs=STUBS + ['KTableCache()[gas] -> k-table double (symbolic coefficients and weights)', 'chemistry double'],
+         outside=['more than one active gas in k-table mode (weights are taken from the first)'])
+def prepare_ktables(ctx, n, nw, ng):
+    """Real AbsorptionContribution.prepare in k-table mode against a k-table cache double, run TWICE on the same object
+    with the loaded tables replaced in between (same number of quadrature points, different weights and
+    coefficients): after each run the prepared coefficients are k x mixing ratio and the quadrature weights are those
+    of the tables CURRENTLY loaded; the layer transmittance computed by the real contribute_ktau with them is the
+    weighted average of exponentials."""
+    import taurex.contributions.absorption as ab
+    from taurex.cache import GlobalCache
+    from taurex.model import TransmissionModel
+    from .c03 import _Chem, _Cache
+    Tl = [1000.0 + l for l in range(n)]
+    mix = {'H2O': ctx.reals('mix', n, gt=0, hint=(0.01, 1))}
+    wn = np.arange(1, nw + 1) * 100.0
+
+    class _KT(object):
+        def __init__(self, tag):
+            self.k = ctx.array('k%s' % tag, (n, nw, ng), ge=0, hint=(0, 5))
+            self.weights = _weights_named(ctx, ng, 'w%s' % tag)
+
+        def opacity(self, T, P, wngrid=None):
+            return self.k[Tl.index(float(T))].copy()
+    t1, t2 = _KT('a'), _KT('b')
+    cache = _Cache({'H2O': t1})
+
+    class _Model(object):
+        nLayers = n
+        chemistry = _Chem(['H2O'], [], mix)
+        temperatureProfile = np.array(Tl)
+        pressureProfile = np.logspace(5, 0, n)
+    old = GlobalCache()['opacity_method']
+    GlobalCache()['opacity_method'] = 'ktables'
+    try:
+        with patched(ab, OpacityCache=cache, KTableCache=cache):
+            a = ab.AbsorptionContribution()
+            out = []
+            for t in (t1, t2):
+                cache.d['H2O'] = t
+                a.prepare(_Model(), wn)
+                out.append((np.array(a.sigma_xsec, dtype=object if ctx.sym else float).copy(), list(a.weights)))
+    finally:
+        GlobalCache()['opacity_method'] = old
+    for r, t in enumerate((t1, t2)):
+        sig, wts = out[r]
+        ctx.goal('shape[%d]' % r, np.shape(sig) == (n, nw, ng) and len(wts) == ng)
+        for g in range(ng):
+            ctx.goal('weights_current[%d,%d]' % (r, g), ctx.eq(wts[g], t.weights[g]))
+        for idx in np.ndindex((n, nw, ng)):
+            ctx.goal('coefficients[%d,%s]' % (r, ','.join(map(str, idx))), ctx.eq(sig[idx], t.k[idx] * mix['H2O'][idx[0]]))
+
+
+def _weights_named(ctx, ng, name):
+    w = ctx.reals(name, ng, ge=0, hint=(0.05, 1))
+    ctx.assume(ctx.eq(sum(w[1:], w[0]), 1.0))
+    return w
